@@ -342,6 +342,56 @@ func JSONDoc(class int, keys, vals []int, bad int) []byte {
 	panic(diverged{"unknown json class"})
 }
 
+func StrOf(x int) string {
+	if x == 0 {
+		return ""
+	}
+	return fmt.Sprintf("s%014d", x)
+}
+func IntOf(s string) int {
+	if s == "" {
+		return 0
+	}
+	n, err := strconv.Atoi(strings.TrimLeft(s[1:], "0"))
+	if err != nil {
+		panic(diverged{"IntOf of a string that is not an atom: " + s})
+	}
+	return n
+}
+func Str(tag string) string { v, _ := next(tag); return StrOf(int(v)) }
+
+func JSONDocS(class int, keys, vals []string, bad int) []byte {
+	elem := func(i int) string {
+		if i == bad {
+			return `7`
+		}
+		return strconv.Quote(vals[i])
+	}
+	switch class {
+	case 0:
+		return []byte(`[1,`)
+	case 1:
+		return []byte(``)
+	case 2:
+		return []byte(`null`)
+	case 3:
+		return []byte(`7`)
+	case 4:
+		var parts []string
+		for i := range vals {
+			parts = append(parts, elem(i))
+		}
+		return []byte("[" + strings.Join(parts, ",") + "]")
+	case 5:
+		var parts []string
+		for i := range vals {
+			parts = append(parts, strconv.Quote(keys[i])+":"+elem(i))
+		}
+		return []byte("{" + strings.Join(parts, ",") + "}")
+	}
+	panic(diverged{"unknown json class"})
+}
+
 func JSONKind(data []byte) int {
 	if !json.Valid(data) {
 		return 0
